@@ -262,6 +262,7 @@ Plan gen_lz4c(u64 seed) {
     Op o; o.kind = "lz4_block";
     // a = [source kind, source param, encoder seed, nmut, (off,val)*, out_size delta]
     u32 src = r.below(10);
+    if (r.chance(1, 2500)) src = 10 + r.below(2);     // a 17 MB block whose length-extension run sums past 2^32 (literal or match length)
     o.a = {i64(src), i64(r.next() >> 16), i64(r.next() >> 8)};
     unsigned nmut = r.chance(1, 2) ? 0 : 1 + r.below(3);
     o.a.push_back(nmut);
@@ -285,9 +286,48 @@ static void make_plain(u32 kind, u64 param, Bytes &pl) {
     size_t len = 13 + r.below(600); for (size_t k = 0; k < len; ++k) pl.push_back(u8(r.chance(1, 3) ? r.next() : 'a' + r.below(3)));    // small alphabet
 }
 
+// A block in which one length is spelt with 16 843 009 extension bytes of 0xFF: 15 + 255*16843009 + b = 2^32 + 14 + b. No such length is
+// valid (the whole input is shorter); a decoder that accumulates in 32 bits sees 14 + b and may go on to decode the rest happily.
+static void make_wrap_block(bool in_match, u64 param, Bytes &block, size_t &out_size) {
+    Rng r(param); block.clear();
+    const size_t N = 16843009; const unsigned b = r.below(3);
+    auto ext = [&](size_t v) { while (v >= 255) { block.push_back(0xFF); v -= 255; } block.push_back(u8(v)); };
+    const size_t big = 17000000 + r.below(5000);          // a genuine long match so that the announced size exceeds the input size
+    if (!in_match) {
+        block.push_back(0xFF);                                 // literal length 15+, match length 15+
+        block.insert(block.end(), N, 0xFF); block.push_back(u8(b));          // literal length "2^32 + 14 + b"
+        for (unsigned k = 0; k < 14 + b; ++k) block.push_back(u8('A' + k));
+        block.push_back(u8(14 + b)); block.push_back(0);       // match distance
+        ext(big - 4 - 15);
+        out_size = 14 + b + big;
+    } else {
+        block.push_back(0x1F); block.push_back('A'); block.push_back(1); block.push_back(0);       // 1 literal, match distance 1, length 15+
+        block.insert(block.end(), N, 0xFF); block.push_back(u8(b));          // match length "2^32 + 14 + b (+4)"
+        block.push_back(0x0F); block.push_back(1); block.push_back(0); ext(big - 4 - 15);         // no literal, a genuine long match
+        out_size = 1 + (14 + b + 4) + big;
+    }
+    block.push_back(0x50); for (unsigned k = 0; k < 5; ++k) block.push_back(u8('V' + k));          // last literals
+    out_size += 5;
+}
+
 void run_lz4c(const Plan &p) {
     for (auto &op : p.ops) {
         if (op.kind != "lz4_block") continue;
+        if (op.arg(0) >= 10) {
+            Bytes block; size_t out_size = 0; make_wrap_block(op.arg(0) == 11, u64(op.arg(1)), block, out_size);
+            u8 *in = (u8 *)malloc(block.size()); memcpy(in, block.data(), block.size());
+            u8 *out = (u8 *)malloc(out_size); memset(out, 0xA5, out_size);
+            int rc;
+            { API("lz4-decompress", 2000000000ull); LibGuard g; rc = lz4::decompress(in, block.size(), out, out_size); }
+            Bytes ref; bool ref_ok = ref_lz4_decode(block.data(), block.size(), out_size, ref);
+            g_nontrivial = true; probe("lz4c:length-wrap-block");
+            if (rc >= 0 && size_t(rc) == out_size) {
+                if (!ref_ok) violation("C14:accepted-what-reference-rejects", strf("decompress returned the announced size %zu on a %zu-byte block in which one %s length is spelt with 16843009 extension bytes (2^32 + small): the reference decoder rejects it", out_size, block.size(), op.arg(0) == 11 ? "match" : "literal"));
+                else if (memcmp(out, ref.data(), out_size)) violation("C14:wrong-bytes", "length-wrap block: bytes differ from the reference decoder's");
+            } else probe("lz4c:rejected");
+            free(in); free(out);
+            continue;
+        }
         Bytes pl; make_plain(u32(op.arg(0)), u64(op.arg(1)), pl);
         Bytes block; lz4_encode(pl, u64(op.arg(2)), block);
         Bytes chk; if (!ref_lz4_decode(block.data(), block.size(), pl.size(), chk) || chk != pl) { violation("SIM:encoder-roundtrip", "harness encoder output does not round-trip through the reference decoder"); return; }
